@@ -226,15 +226,30 @@ impl Selection {
         }
     }
 
-    pub(crate) fn contains_fragment(&self, fragment_id: ResolvedFragmentId, query: &Query) -> bool {
-        match self {
-            Selection::FragmentSpread(id) => *id == fragment_id,
-            _ => self.subselection().iter().any(|selection_id| {
-                query
-                    .get_selection(*selection_id)
-                    .contains_fragment(fragment_id, query)
-            }),
-        }
+    /// Whether this selection contains a spread of the fragment, directly or
+    /// through the other fragments it spreads. `visited` holds the fragments
+    /// that have already been searched.
+    pub(crate) fn contains_fragment(
+        &self,
+        fragment_id: ResolvedFragmentId,
+        query: &Query,
+        visited: &mut Vec<ResolvedFragmentId>,
+    ) -> bool {
+        let selection_set = match self {
+            Selection::FragmentSpread(id) if *id == fragment_id => return true,
+            Selection::FragmentSpread(id) if visited.contains(id) => return false,
+            Selection::FragmentSpread(id) => {
+                visited.push(*id);
+                query.get_fragment(*id).selection_set.as_slice()
+            }
+            _ => self.subselection(),
+        };
+
+        selection_set.iter().any(|selection_id| {
+            query
+                .get_selection(*selection_id)
+                .contains_fragment(fragment_id, query, visited)
+        })
     }
 
     pub(crate) fn subselection(&self) -> &[SelectionId] {
